@@ -114,7 +114,8 @@ def scalar_t():
 
 def field_types(depth):
     base = scalar_t()
-    hash_t = st.one_of(st.sampled_from(HASHABLE).map(L), st.sampled_from(["Color", "Num"]).map(lambda e: {"k": "enum", "e": e}))
+    hash_t = st.one_of(st.sampled_from(HASHABLE).map(L), st.sampled_from(["Color", "Num", "Plain", "Plain"]).map(lambda e: {"k": "enum", "e": e}),
+                       st.sampled_from(["int", "str"]).map(lambda o: {"k": "opt", "a": L(o)}))
     if depth <= 0:
         return base
     inner = field_types(depth - 1)
@@ -217,8 +218,12 @@ def run_case(case):
         try:
             s = json.dumps(inst, cls=utype.JSONEncoder)
         except Exception as e:
-            return {"status": "ok", "nn": nn, "fails": [(f"encoding-raises/{type(e).__name__}", {"error": str(e)[:200], "kinds": kinds,
-                                                                                              "dataclass_base": _has_dataclass_base(d)})]}
+            import re
+            m = re.search(r"Object of type (\w+) is not JSON serializable", str(e))
+            what = "attribute-based-data-class" if (m and _has_dataclass_base(d) and m.group(1) not in ("set", "tuple", "Decimal", "datetime")) \
+                else (m.group(1) if m else re.sub(r"[^a-z<>' ]+", "", str(e).lower())[:50].strip().replace(" ", "-"))
+            return {"status": "ok", "nn": nn, "fails": [(f"encoding-raises/{type(e).__name__}/{what}", {"error": str(e)[:200], "kinds": kinds,
+                                                                                                     "dataclass_base": _has_dataclass_base(d)})]}
         try:
             json.loads(s, parse_constant=_reject_constant)
         except ValueError as e:
